@@ -6,6 +6,10 @@ from ..base import AnalysisError, Defs, U, bool_guards, own_nodes, stmts, walk_g
 
 
 def run(repo, res):
+    from . import nullidx
+
+    res.rule("R31.2", "above a root the child's age is used: the parent id returned by tree.parent() is tested against tskit.NULL before it indexes the node times (numpy would read the last node's time for -1)")
+    nullidx.run(repo, res, "R31.2")
     res.rule("R31.1", "the set of accepted node_selection strings equals the set handled by the dispatch chain and every handled branch binds the age from the documented nodes (child; parent; (child+parent)/2; sqrt(child*parent); child above a root); the per-site maximum, the min_time floor and the NaN default are on every path; unconstrained selects nodes_time_unconstrained, which overwrites only non-sample entries with the mn metadata; add_sampledata_times takes an element-wise maximum")
     f = repo.fn("util", "sites_time_from_ts")
     # accepted strings
@@ -85,7 +89,7 @@ def run(repo, res):
     res.require(ok, "R31.1", "util.add_sampledata_times takes the element-wise maximum of estimate and historical-sample bound", "combination differs", repo.loc(ad))
 
 
-VARIANTS = [
+VARIANTS = [dict(name="root-parent-unguarded", mod="util", expect="fire", rule="R31.2", old="                if node_selection == \"child\" or parent_node == tskit.NULL:", new="                if node_selection == \"child\":")] + [
     dict(name="choice-unhandled", mod="util", expect="fire", rule="R31.1", old='    if node_selection not in ["arithmetic", "geometric", "child", "parent"]:', new='    if node_selection not in ["arithmetic", "geometric", "child", "parent", "harmonic"]:'),
     dict(name="branch-deleted", mod="util", expect="fire", rule="R31.1", old='                    elif node_selection == "geometric":\n                        age = np.sqrt(nodes_time[mutation.node] * parent_age)\n', new=""),
     dict(name="arithmetic-not-mean", mod="util", expect="fire", rule="R31.1", old="                        age = (nodes_time[mutation.node] + parent_age) / 2", new="                        age = (nodes_time[mutation.node] + parent_age)"),
